@@ -1,10 +1,15 @@
-(* C11 — the universe does not depend on how loading was split or ordered (partial: proved here
-   are the history clauses -- splitting a load is the same as loading in sequence, every load on
-   every world only extends it, objects obtained before stay the ones later lookups return, and
-   re-walking what is already there is a no-op; invariance of the final dump under PERMUTATION of
-   the requests is decided by the correspondence run over permutations and partitions, not by a
-   theorem) *)
-Require Import Gengo.Base.Str Gengo.Model.Universe Gengo.Proofs.UniverseProofs Gengo.Proofs.CanonProofs Gengo.Proofs.FaithfulProofs Gengo.Proofs.IndepProofs.
+(* C11 — the universe does not depend on how loading was split or ordered.  Proved here: splitting a
+   load is the same as loading in sequence; every load on every world only extends it; objects
+   obtained before stay the ones later lookups return, and an entry whose kind is decided keeps every
+   field through any later walk or load; the same key resolves to the same object whatever the
+   history; and the whole entry built for a non-generic type (unnamed composites, defined types over
+   them, defined types over basic/map/slice... types) is a function of the type checker's node
+   table, identical in any two universes reached by lookups and loads.  Not proved (partial): the
+   content of generic declarations (v2) and that the same SET of keys is present after any
+   permutation / partition of the same requests -- decided by the correspondence run over
+   permutations and partitions. *)
+Require Import Gengo.Base.Str Gengo.Model.Universe Gengo.Proofs.UniverseProofs Gengo.Proofs.CanonProofs Gengo.Proofs.FaithfulProofs Gengo.Proofs.IndepProofs
+               Gengo.Proofs.FrameProofs Gengo.Proofs.MethodsProofs Gengo.Proofs.AliasProofs Gengo.Proofs.ExactProofs Gengo.Proofs.NamedProofs.
 
 Theorem C11_split_is_sequence : forall v2 p fuel gs1 gs2 w,
   fold_left (add_package v2 p fuel) (gs1 ++ gs2) w =
@@ -92,6 +97,95 @@ Theorem C11_array_entry_independent_of_history : forall v2 p, named_ok v2 p -> f
 Proof. exact array_independent. Qed.
 Print Assumptions C11_array_entry_independent_of_history.
 
+Theorem C11_func_entry_independent_of_history : forall v2 p, named_ok v2 p -> forall f1 f2 u1 u2 use t tstr ps rs vr recv u1' u2' o1 o2,
+  wf u1 -> canonical v2 u1 -> wf u2 -> canonical v2 u2 -> plookup t p = Some (tstr, SFunc ps rs vr recv) ->
+  Forall (fun a => keyed v2 p None (snd a)) ps -> Forall (fun a => keyed v2 p None (snd a)) rs ->
+  (forall r, recv = Some r -> keyed v2 p None r) ->
+  fresh_for v2 u1 use tstr -> fresh_for v2 u2 use tstr ->
+  walk v2 p (S f1) u1 use t = Some (u1', o1) -> walk v2 p (S f2) u2 use t = Some (u2', o2) ->
+  exists e1 e2, nlookup o1 (objs u1') = Some e1 /\ nlookup o2 (objs u2') = Some e2 /\
+                e_kind e1 = e_kind e2 /\ e_sig e1 = e_sig e2.
+Proof. exact func_independent. Qed.
+Print Assumptions C11_func_entry_independent_of_history.
+
+Theorem C11_interface_entry_independent_of_history : forall v2 p, named_ok v2 p -> forall f1 f2 u1 u2 use t tstr ms u1' u2' o1 o2,
+  wf u1 -> canonical v2 u1 -> wf u2 -> canonical v2 u2 -> plookup t p = Some (tstr, SIface ms) ->
+  Forall (fun m => keyed v2 p (Some (name_of_string v2 (snd (fst m)))) (snd m)) ms ->
+  fresh_for v2 u1 use tstr -> fresh_for v2 u2 use tstr ->
+  walk v2 p (S f1) u1 use t = Some (u1', o1) -> walk v2 p (S f2) u2 use t = Some (u2', o2) ->
+  exists e1 e2, nlookup o1 (objs u1') = Some e1 /\ nlookup o2 (objs u2') = Some e2 /\
+                e_kind e1 = e_kind e2 /\ e_methods e1 = e_methods e2.
+Proof. exact iface_independent. Qed.
+Print Assumptions C11_interface_entry_independent_of_history.
+
+(* "objects obtained before an incremental load stay valid": not only does a key keep its object
+   and the object its kind -- an entry whose kind has been decided keeps EVERY field (element, key,
+   underlying type, members, methods, signature, ...) through any later walk and any later sequence
+   of package loads.  Only the walk that decides an entry fills it in. *)
+Theorem C11_walk_never_touches_decided_entries : forall v2 p, named_ok v2 p -> forall fuel u use t u' o, canonical v2 u ->
+  walk v2 p fuel u use t = Some (u', o) ->
+  forall x e, nlookup x (objs u) = Some e -> e_kind e <> [] -> nlookup x (objs u') = Some e.
+Proof. exact walk_frame. Qed.
+Print Assumptions C11_walk_never_touches_decided_entries.
+Theorem C11_decided_entries_survive_every_load_history : forall v2 p fuel, named_ok v2 p -> forall gs w w', canonical v2 (w_u w) ->
+  fold_left (add_package v2 p fuel) gs (Some w) = Some w' ->
+  forall x e, nlookup x (objs (w_u w)) = Some e -> e_kind e <> [] -> nlookup x (objs (w_u w')) = Some e.
+Proof. exact load_frame. Qed.
+Print Assumptions C11_decided_entries_survive_every_load_history.
+
+(* every universe reached from the empty one by lookups and loads is well-formed, canonical, and
+   every entry whose kind is still undecided is exactly the blank placeholder its lookup created
+   (pristine): nothing is ever written into an entry before its kind is set *)
+Theorem C11_loaded_universes_invariant : forall v2 p fuel, named_ok v2 p -> forall pre gs pk w',
+  fold_left (add_package v2 p fuel) gs (Some {| w_u := lookups v2 {| objs := []; tkeys := [] |} pre; w_pkgs := pk |}) = Some w' ->
+  wf (w_u w') /\ canonical v2 (w_u w') /\ pristine (w_u w').
+Proof. exact loaded_pristine. Qed.
+Print Assumptions C11_loaded_universes_invariant.
+
+(* the WHOLE entry of an unnamed composite type (pointer, slice, channel, array, map, struct,
+   function, interface): two walks of the same node in any two such universes (different histories,
+   different budgets) in which its entry is still undecided return the same object and leave
+   identical entries -- every field *)
+Theorem C11_composite_entry_is_a_function_of_the_node_table : forall v2 p, named_ok v2 p -> forall f1 f2 u1 u2 use t tstr sh u1' u2' o1 o2,
+  (wf u1 /\ canonical v2 u1 /\ pristine u1) -> (wf u2 /\ canonical v2 u2 /\ pristine u2) ->
+  plookup t p = Some (tstr, sh) -> children_keyed v2 p sh ->
+  let nm := match use with Some n => n | None => name_of_string v2 tstr end in
+  complete (fst (get_or_create v2 u1 nm)) (snd (get_or_create v2 u1 nm)) = false ->
+  complete (fst (get_or_create v2 u2 nm)) (snd (get_or_create v2 u2 nm)) = false ->
+  walk v2 p (S f1) u1 use t = Some (u1', o1) -> walk v2 p (S f2) u2 use t = Some (u2', o2) ->
+  o1 = o2 /\ exists e, nlookup o1 (objs u1') = Some e /\ nlookup o2 (objs u2') = Some e.
+Proof. exact composite_entry_independent. Qed.
+Print Assumptions C11_composite_entry_is_a_function_of_the_node_table.
+
+(* ... and so is the whole entry of a defined type over a struct, interface, function ... type
+   (v1: every such type; v2: the non-generic branch), methods included *)
+Theorem C11_defined_composite_entry_is_a_function_of_the_node_table : forall v2 p, named_ok v2 p ->
+  forall f1 f2 u1 u2 use1 use2 t tstr cls under ms tps origin ts sh u1' u2' o1 o2,
+  (wf u1 /\ canonical v2 u1 /\ pristine u1) -> (wf u2 /\ canonical v2 u2 /\ pristine u2) ->
+  plookup t p = Some (tstr, SNamed cls under ms tps origin) -> N.eqb cls 0 = false -> (N.eqb cls 1 && v2) = false ->
+  plookup under p = Some (ts, sh) -> children_keyed v2 p sh ->
+  Forall (fun m => keyed v2 p (Some (name_of_string v2 (snd (fst m)))) (snd m)) ms ->
+  complete (fst (get_or_create v2 u1 (name_of_string v2 tstr))) (snd (get_or_create v2 u1 (name_of_string v2 tstr))) = false ->
+  complete (fst (get_or_create v2 u2 (name_of_string v2 tstr))) (snd (get_or_create v2 u2 (name_of_string v2 tstr))) = false ->
+  walk v2 p (S f1) u1 use1 t = Some (u1', o1) -> walk v2 p (S f2) u2 use2 t = Some (u2', o2) ->
+  o1 = o2 /\ exists e, nlookup o1 (objs u1') = Some e /\ nlookup o2 (objs u2') = Some e.
+Proof. exact named_composite_entry_independent. Qed.
+Print Assumptions C11_defined_composite_entry_is_a_function_of_the_node_table.
+
+(* a defined type over a basic, map, slice, pointer, ... type (Kind Alias): kind, underlying object
+   and the whole method list are the same in any two such universes in which it is still undecided *)
+Theorem C11_defined_type_entry_independent_of_history : forall v2 p, named_ok v2 p -> forall f1 f2 u1 u2 use1 use2 t tstr under ms tps origin u1' u2' o1 o2,
+  (wf u1 /\ canonical v2 u1 /\ pristine u1) -> (wf u2 /\ canonical v2 u2 /\ pristine u2) ->
+  plookup t p = Some (tstr, SNamed 0 under ms tps origin) ->
+  keyed v2 p None under -> Forall (fun m => keyed v2 p (Some (name_of_string v2 (snd (fst m)))) (snd m)) ms ->
+  complete (fst (get_or_create v2 u1 (name_of_string v2 tstr))) (snd (get_or_create v2 u1 (name_of_string v2 tstr))) = false ->
+  complete (fst (get_or_create v2 u2 (name_of_string v2 tstr))) (snd (get_or_create v2 u2 (name_of_string v2 tstr))) = false ->
+  walk v2 p (S f1) u1 use1 t = Some (u1', o1) -> walk v2 p (S f2) u2 use2 t = Some (u2', o2) ->
+  exists e1 e2, nlookup o1 (objs u1') = Some e1 /\ nlookup o2 (objs u2') = Some e2 /\
+                e_kind e1 = e_kind e2 /\ e_under e1 = e_under e2 /\ e_methods e1 = e_methods e2.
+Proof. exact alias_independent_of_history. Qed.
+Print Assumptions C11_defined_type_entry_independent_of_history.
+
 Theorem C11_named_ok_decidable : forall v2 p, named_okb v2 p = true -> named_ok v2 p.
 Proof. exact named_okb_sound. Qed.
 Print Assumptions C11_named_ok_decidable.
@@ -106,3 +200,14 @@ Example C11_example :
 Proof. vm_compute. split; reflexivity. Qed.
 Example C11_example_named_ok : named_okb false ex_prog = true /\ named_okb true ex_prog = true.
 Proof. vm_compute. split; reflexivity. Qed.
+Definition ex_prog2 : prog :=
+  [(1, (s "p.M", SNamed 0 2 [(s "Len", s "func (p.M).Len() int", 4)] [] None)); (2, (s "map[string]int", SMap 5 3)); (3, (s "int", SBasic (s "int")));
+   (4, (s "func() int", SFunc [] [([], 3)] false (Some 1))); (5, (s "string", SBasic (s "string")))]%N.
+Example C11_example_defined_type :
+  named_okb false ex_prog2 = true /\
+  match walk false ex_prog2 10 {| objs := []; tkeys := [] |} None 1%N with
+  | Some (u, o) => o = (s "p", s "M") /\ kind_of u o = s "Alias" /\
+                   option_map e_under (nlookup o (objs u)) = Some (Some ([], s "map[string]int")) /\
+                   option_map (fun e => map fst (e_methods e)) (nlookup o (objs u)) = Some [s "Len"]
+  | None => False end.
+Proof. vm_compute. repeat split; reflexivity. Qed.
